@@ -17,7 +17,12 @@ structure Setup (cmp : K → K → Int) (t : Tree K V) (ops : List (Op K V)) : P
   sw : StrictWeak cmp
   nodup : (ids t.root).Nodup
   ok : ∀ (i : Nat) op, ops[i]? = some op → OpOK cmp t op
-  compat : ∀ (i j : Nat), i ≠ j → ∀ k v o, ops[i]? = some (.put k v) → ops[j]? = some o → cmp k o.key ≠ 0
+  /-- a `Put`'s key is inequivalent to the key of every other `Put` / `Get` / `Contains` … -/
+  compat : ∀ (i j : Nat), i ≠ j → ∀ k v o, ops[i]? = some (.put k v) → ops[j]? = some o → o.isSearch = true →
+    cmp k o.key ≠ 0
+  /-- … and to every stored key that is in range for a range reader -/
+  compatScan : ∀ (i j : Nat), i ≠ j → ∀ k v o, ops[i]? = some (.put k v) → ops[j]? = some o → o.isSearch = false →
+    ∀ y, Sub t.root y → ∀ idx (h : idx < y.kvs.length), inRangeOf cmp o y.kvs[idx].1 = true → cmp k y.kvs[idx].1 ≠ 0
 
 structure CInv (cmp : K → K → Int) (t : Tree K V) (ops : List (Op K V)) (c : Config K V) : Prop where
   len : c.pcs.length = ops.length
@@ -30,6 +35,20 @@ structure CInv (cmp : K → K → Int) (t : Tree K V) (ops : List (Op K V)) (c :
   untouched : ∀ y, Sub t.root y → ∀ i (h : i < y.kvs.length),
     (∀ (j : Nat) k v pc, ops[j]? = some (.put k v) → c.pcs[j]? = some pc → slotOf cmp k t.root = some (y.id, i) →
       pc.isDone = false) → c.mem.val y.id i = some y.kvs[i].2
+
+/-- two different goroutines never approach the same value slot if one of them is a `Put` -/
+theorem valpos_disjoint {t : Tree K V} {ops : List (Op K V)} (hs : Setup cmp t ops) {j j0 : Nat} (hjne : j ≠ j0) {k : K} {v : V}
+    {op : Op K V} (hoj : ops[j]? = some (.put k v)) (hop : ops[j0]? = some op) {x i : Nat}
+    (hvp : ValPos cmp t.root k x i) (hsk : SlotKey cmp t op x i) : False := by
+  rcases hsk with ⟨hsr, hvp'⟩ | ⟨hns, hin⟩
+  · exact hs.compat j j0 hjne k v op hoj hop hsr (valPos_inj hs.sw hs.nodup hvp hvp')
+  · obtain ⟨y, hy, hid, hi, he⟩ := hvp
+    exact hs.compatScan j j0 hjne k v op hoj hop hns y hy i hi (hin y hy hid hi) he
+
+theorem slot_disjoint {t : Tree K V} {ops : List (Op K V)} (hs : Setup cmp t ops) {j j0 : Nat} (hjne : j ≠ j0) {k : K} {v : V}
+    {op : Op K V} (hoj : ops[j]? = some (.put k v)) (hop : ops[j0]? = some op) {x i : Nat}
+    (hsl : slotOf cmp k t.root = some (x, i)) (hsk : SlotKey cmp t op x i) : False :=
+  valpos_disjoint hs hjne hoj hop (valPos_of_slot hsl) hsk
 
 theorem cinv_initial {t : Tree K V} {ops : List (Op K V)} {m : Mem K V} (hr : Rep m t) :
     CInv cmp t ops (initial m ops) := by
@@ -80,9 +99,9 @@ theorem cinv_step {t : Tree K V} {ops : List (Op K V)} (hs : Setup cmp t ops) {c
   have hne : ∀ pc' j, j ≠ j0 → (c.pcs.set j0 pc')[j]? = c.pcs[j]? := fun pc' j h => List.getElem?_set_ne (Ne.symm h)
   -- two different goroutines never own the same value slot if one of them is a Put
   have hdisj : ∀ (j : Nat) k v (o : Op K V) x i, j ≠ j0 → ops[j]? = some (.put k v) → slotOf cmp k t.root = some (x, i) →
-      ValPos cmp t.root op.key x i → False := by
+      SlotKey cmp t op x i → False := by
     intro j k v o x i hjne hoj hsl hvp
-    exact hs.compat j j0 hjne k v op hoj hop (valPos_inj hs.sw hs.nodup (valPos_of_slot hsl) hvp)
+    exact slot_disjoint hs hjne hoj hop hsl hvp
   by_cases hw : ∃ l, accessOf pc = some ⟨l, true⟩
   · -- the write of a Put
     obtain ⟨l, hl⟩ := hw
@@ -95,7 +114,7 @@ theorem cinv_step {t : Tree K V} {ops : List (Op K V)} (hs : Setup cmp t ops) {c
       · subst hij
         rw [hself] at hp; cases hp
         rw [hop] at ho; cases ho
-        rfl
+        intro _; rfl
       · rw [hne _ i hij] at hp
         exact hi.good i op' pc' ho hp
     · intro j k' v' pc' ho hp hd x' i' hsl
@@ -109,7 +128,7 @@ theorem cinv_step {t : Tree K V} {ops : List (Op K V)} (hs : Setup cmp t ops) {c
         have hold := hi.written j k' v' pc' ho hp hd x' i' hsl
         have : ¬ (x' = x ∧ i' = iw) := by
           rintro ⟨rfl, rfl⟩
-          exact hdisj j k' v' (.put k v) x' i' hij ho hsl (valPos_of_slot hslot)
+          exact hdisj j k' v' (.put k v) x' i' hij ho hsl (Or.inl ⟨rfl, valPos_of_slot hslot⟩)
         simp only [this, if_false]
         exact hold
     · intro y hy i hlt hprem
@@ -213,32 +232,39 @@ theorem cinv_no_race {t : Tree K V} {ops : List (Op K V)} (hs : Setup cmp t ops)
         cases hopi : ops[i] with
         | get k => rw [hopi] at hwra; simp [Op.isPut] at hwra
         | contains k => rw [hopi] at hwra; simp [Op.isPut] at hwra
-        | iter x i g ck => rw [hopi] at hwra; simp [Op.isPut] at hwra
+        | scan fwd sk skey stop limit => rw [hopi] at hwra; simp [Op.isPut] at hwra
         | put k v =>
           rw [hopi] at hvpa hoi
-          exact hs.compat i j hij k v _ hoi hoj (valPos_inj hs.sw hs.nodup hvpa hvpb)
+          rcases hvpa with ⟨_, hvp⟩ | ⟨hns, _⟩
+          · exact valpos_disjoint hs hij hoi hoj hvp hvpb
+          · simp [Op.isSearch] at hns
   simp only [conflict, Bool.and_eq_true, decide_eq_true_eq, Bool.or_eq_true] at hconf
   obtain ⟨hloc, hwa | hwb⟩ := hconf
   · exact core i j a b hij ha hb hloc hwa
   · exact core j i b a (Ne.symm hij) hb ha hloc.symm hwb
 
-/-- in a configuration where nobody can move, everybody has returned what the operation returns when
-run alone on `t` -/
+/-- in a configuration where nobody can move, every `Put` / `Get` / `Contains` has returned what the operation
+returns when run alone on `t` -/
 theorem terminal_results {t : Tree K V} {ops : List (Op K V)} {c : Config K V} (hi : CInv cmp t ops c)
-    (ht : Terminal cmp ops c) : ∀ (i : Nat) op, ops[i]? = some op → c.pcs[i]? = some (PC.done (expected cmp t op)) := by
-  intro i op ho
+    (ht : Terminal cmp ops c) : ∀ (i : Nat) op, ops[i]? = some op → op.isSearch = true →
+      c.pcs[i]? = some (PC.done (expected cmp t op)) := by
+  intro i op ho hsr
   have hli : i < c.pcs.length := by rw [hi.len]; exact (List.getElem?_eq_some_iff.mp ho).1
   have hp : c.pcs[i]? = some c.pcs[i] := List.getElem?_eq_getElem hli
   have := ht i
   unfold stepAt at this
   simp only [ho, hp] at this
+  have hg := hi.good i op _ ho hp
   cases hpc : c.pcs[i] with
   | done r =>
-    have hg := hi.good i op _ ho hp
     rw [hpc] at hg
     rw [hp, hpc]
     simp only [Good] at hg
-    rw [hg]
+    rw [hg hsr]
+  | it ph st =>
+    rw [hpc] at hg
+    obtain ⟨hns, _⟩ := hg
+    rw [hsr] at hns; cases hns
   | _ => rw [hpc] at this; simp [PC.isDone] at this
 
 end Juniper.Proofs.TreeAccess
